@@ -594,8 +594,20 @@ class JSTypedArray(JSObject):
         return int(value).to_bytes(self._element_size, "little", signed=self._signed)
 
     def _coerce_value(self, value):
-        """Coerce value to the appropriate type. Override in subclasses."""
-        return int(value) if isinstance(value, (int, float)) else 0
+        """Coerce value to the element type: ToNumber, then modulo 2**bits (integer types)."""
+        return self._wrap_integer(value)
+
+    def _wrap_integer(self, value) -> int:
+        n = to_number(value)
+        if isinstance(n, float):
+            if math.isnan(n) or math.isinf(n):
+                return 0
+            n = int(n)
+        bits = self._element_size * 8
+        n &= (1 << bits) - 1
+        if self._signed and n >= 1 << (bits - 1):
+            n -= 1 << bits
+        return n
 
     def __repr__(self) -> str:
         return f"{self._type_name}({self._data})"
@@ -608,16 +620,6 @@ class JSInt32Array(JSTypedArray):
     _type_name = "Int32Array"
     _signed = True
 
-    def _coerce_value(self, value):
-        """Coerce to signed 32-bit integer."""
-        if isinstance(value, (int, float)):
-            v = int(value)
-            # Handle overflow to signed 32-bit
-            v = v & 0xFFFFFFFF
-            if v >= 0x80000000:
-                v -= 0x100000000
-            return v
-        return 0
 
 
 class JSUint32Array(JSTypedArray):
@@ -627,11 +629,6 @@ class JSUint32Array(JSTypedArray):
     _type_name = "Uint32Array"
     _signed = False
 
-    def _coerce_value(self, value):
-        """Coerce to unsigned 32-bit integer."""
-        if isinstance(value, (int, float)):
-            return int(value) & 0xFFFFFFFF
-        return 0
 
 
 class JSFloat64Array(JSTypedArray):
@@ -643,9 +640,7 @@ class JSFloat64Array(JSTypedArray):
 
     def _coerce_value(self, value):
         """Coerce to float."""
-        if isinstance(value, (int, float)):
-            return float(value)
-        return 0.0
+        return float(to_number(value))
 
     def _unpack_value(self, data: bytes):
         """Unpack bytes to float64."""
@@ -667,11 +662,6 @@ class JSUint8Array(JSTypedArray):
     _type_name = "Uint8Array"
     _signed = False
 
-    def _coerce_value(self, value):
-        """Coerce to unsigned 8-bit integer."""
-        if isinstance(value, (int, float)):
-            return int(value) & 0xFF
-        return 0
 
 
 class JSInt8Array(JSTypedArray):
@@ -681,14 +671,6 @@ class JSInt8Array(JSTypedArray):
     _type_name = "Int8Array"
     _signed = True
 
-    def _coerce_value(self, value):
-        """Coerce to signed 8-bit integer."""
-        if isinstance(value, (int, float)):
-            v = int(value) & 0xFF
-            if v >= 0x80:
-                v -= 0x100
-            return v
-        return 0
 
 
 class JSInt16Array(JSTypedArray):
@@ -698,14 +680,6 @@ class JSInt16Array(JSTypedArray):
     _type_name = "Int16Array"
     _signed = True
 
-    def _coerce_value(self, value):
-        """Coerce to signed 16-bit integer."""
-        if isinstance(value, (int, float)):
-            v = int(value) & 0xFFFF
-            if v >= 0x8000:
-                v -= 0x10000
-            return v
-        return 0
 
 
 class JSUint16Array(JSTypedArray):
@@ -715,11 +689,6 @@ class JSUint16Array(JSTypedArray):
     _type_name = "Uint16Array"
     _signed = False
 
-    def _coerce_value(self, value):
-        """Coerce to unsigned 16-bit integer."""
-        if isinstance(value, (int, float)):
-            return int(value) & 0xFFFF
-        return 0
 
 
 class JSUint8ClampedArray(JSTypedArray):
@@ -730,16 +699,15 @@ class JSUint8ClampedArray(JSTypedArray):
 
     def _coerce_value(self, value):
         """Coerce to clamped unsigned 8-bit integer (0-255)."""
-        if isinstance(value, (int, float)):
-            # Round half to even for 0.5 values
-            v = round(value)
-            # Clamp to 0-255
-            if v < 0:
-                return 0
-            if v > 255:
-                return 255
-            return v
-        return 0
+        n = to_number(value)
+        if isinstance(n, float) and math.isnan(n):
+            return 0
+        if n <= 0:
+            return 0
+        if n >= 255:
+            return 255
+        # Round half to even for 0.5 values
+        return round(n)
 
 
 class JSFloat32Array(JSTypedArray):
@@ -753,11 +721,12 @@ class JSFloat32Array(JSTypedArray):
         """Coerce to 32-bit float."""
         import struct
 
-        if isinstance(value, (int, float)):
+        n = float(to_number(value))
+        try:
             # Convert to float32 and back to simulate precision loss
-            packed = struct.pack("<f", float(value))
-            return struct.unpack("<f", packed)[0]
-        return 0.0
+            return struct.unpack("<f", struct.pack("<f", n))[0]
+        except OverflowError:
+            return math.copysign(float("inf"), n)
 
     def _unpack_value(self, data: bytes):
         """Unpack bytes to float32."""
@@ -769,7 +738,10 @@ class JSFloat32Array(JSTypedArray):
         """Pack float32 to bytes."""
         import struct
 
-        return struct.pack("<f", float(value))
+        try:
+            return struct.pack("<f", float(value))
+        except OverflowError:
+            return struct.pack("<f", math.copysign(float("inf"), value))
 
 
 class JSArrayBuffer(JSObject):
